@@ -324,3 +324,40 @@ def cell_delta(eff, field=None):
         return Delta(None, "read-modify-write with an intervening write to the same item (read at version %s, written at %s)" % (prevs[0][2], eff.ver), eff)
     n.add_atom(prevs[0][0], -1)
     return Delta(n, ("inexact operation %s" % n.inexact) if n.inexact else None, eff)
+
+
+# ------------------------------------------------------------------------ loop accumulators
+def acc_chain(path, term):
+    """follow a loop accumulator back to its base value.
+    returns (base_term, [(loopkey, var, delta NF or None)]) - one entry per loop the value went through;
+    delta is the per-iteration change (None when the path took zero iterations of that loop)."""
+    chain = []
+    seen = 0
+    while isinstance(term, tuple) and term and term[0] == "loopvar" and seen < 20:
+        seen += 1
+        lk, var, it = term[1], term[2], term[3]
+        ent = [e for e in path.effects if e.kind == "loop_enter" and e.name == lk]
+        stp = [e for e in path.effects if e.kind == "loop_step" and e.name == lk]
+        if not ent or var not in ent[0].value:
+            return term, chain
+        delta = None
+        if it >= 1 and stp and var in stp[0].value:
+            d = nf(stp[0].value[var])
+            prev = ("loopvar", lk, var, 0)
+            if d.atoms.get(prev, 0) == 1:
+                d.add_atom(prev, -1)
+                delta = d
+            else:
+                delta = "not-additive: %s" % show(stp[0].value[var])[:200]
+        chain.append((lk, var, delta))
+        term = ent[0].value[var]
+    return term, chain
+
+
+def loop_elem(path, lk):
+    """the iteration element term of loop lk on this path (iteration 0), or None"""
+    for c in path.conds:
+        t = c[0]
+        if t[0] == "calli" and t[1] == "next" and c[1] == "Some" and t[2][0][0] == "loopvar" and t[2][0][1] == lk and t[2][0][3] == 0:
+            return ("vfield", t, "Some", "0")
+    return None
